@@ -1,6 +1,9 @@
 package props
 
 import (
+	"math"
+
+	sdkmath "cosmossdk.io/math"
 	"fmt"
 	"strconv"
 
@@ -103,7 +106,13 @@ func c06Msg(seq uint64, by string, variant int) (*opchildtypes.MsgFinalizeTokenD
 	} else if seq == 3 {
 		data, toName = []byte{0xde, 0xad}, ""
 	}
-	return opchildtypes.NewMsgFinalizeTokenDeposit(world.Addr(by).String(), "l1sender", to, sdk.NewInt64Coin(c06Denom, amt), seq, 5, "uxx", data), toName, amt
+	coin := sdk.NewInt64Coin(c06Denom, amt)
+	if seq == 2 && variant == 0 {
+		// the refunded deposit carries the largest amount L1 can emit (2^64-1): nothing is credited, so the
+		// int64 ledger of the model is not involved
+		coin = sdk.NewCoin(c06Denom, sdkmath.NewIntFromUint64(math.MaxUint64))
+	}
+	return opchildtypes.NewMsgFinalizeTokenDeposit(world.Addr(by).String(), "l1sender", to, coin, seq, 5, "uxx", data), toName, amt
 }
 
 func (c06Sys) Step(s *c06State, l engine.Letter) (*c06State, string, *engine.Violation) {
